@@ -176,9 +176,10 @@ P("C14", "other",
   "Group.members / System.members (the closure itself: a recursion through the generator iter_used_groups) were attempted and are "
   "not discharged (8 of 25 and 4 of 22 obligations undecided after 200 s); they stay bounded. Group.is_used_group is an assumed contract "
   "(modifies nothing). The registry-wide invariant groups_wf (names registered under their own name, set objects not shared) is a "
-  "precondition, established by Group.__init__, which is not under contract.",
+  "precondition, established by Group.__init__, which is not under contract; it is evaluated by the run-time monitor on every group "
+  "and system of the default registry (c14_monitor), where it holds - the solvers' vacuity checks find no model of it within their budget.",
   MIXED + ": proved = default_system setter and the invalidation discipline of the six edit operations; bounded = everything else.",
-  standins=["standins.c14_systems"])
+  standins=["standins.c14_systems", "standins.c14_monitor"])
 P("C15", "other",
   "Deductive: Quantity.to / ito / _convert_magnitude are verified (not assumed): DimensionalityError iff the dimensionalities "
   "differ, otherwise the physical value and the dimensionality are preserved, the operand of to() is untouched and ito() leaves "
